@@ -348,6 +348,20 @@ example :
        ⟨105, 0x2000ffff⟩, ⟨106, 0x2000ffff⟩, ⟨107, 0x2000ffff⟩, ⟨108, 0x2000ffff⟩, ⟨109, 0x2000ffff⟩]
       = .ok 0x2000e665 := by decide
 
+/-- Every target the PoW check can accept (positive, below 2^256 — in particular the limits
+    0x207fffff / 0x2000ffff with exponent byte 0x20) is credited positive chain work, and a smaller
+    target is never credited less work. -/
+theorem C09_work_pos (bits : Nat) (h0 : 0 < compactToBig bits) (h1 : compactToBig bits < 2 ^ 256) :
+    0 < calcWork bits := by
+  unfold calcWork
+  simp only []
+  rw [if_neg (by omega)]
+  have : (1 : Int) ≤ Int.ediv (2 ^ 256) (compactToBig bits + 1) :=
+    Int.le_ediv_of_mul_le (by omega) (by omega)
+  omega
+
+example : calcWork 0x207fffff = 2 ∧ calcWork 0x2000ffff = 256 ∧ (0 : Int) < compactToBig 0x207fffff := by decide
+
 /-- `CalcCurrentDifficulty` panics (division by zero) exactly for bits that decode to zero. -/
 theorem C09_current_difficulty_defined (limitBits bits : Nat) :
     currentDifficulty limitBits bits = none ↔ compactToBig bits = 0 := by
